@@ -2,6 +2,8 @@
 # usage: tools_mut.sh <patch> <id> [<id>...]   -- apply a seeded change to /repo, run quick checks, undo it
 p="$1"; shift
 git -C /repo apply "$p" || exit 3
+# the evidence of a run against a changed tree must not replace the evidence of the working tree
+export VERIF_EVIDENCE_DIR=/verif/out/evidence_alt
 for id in "$@"; do
   /verif/check "$id" > /tmp/mut_$id.log 2>&1; rc=$?
   echo "$id rc=$rc $(grep -c '^VIOLATION' /tmp/mut_$id.log) violation line(s); $(grep -m1 'violation:' /tmp/mut_$id.log)"
